@@ -50,7 +50,8 @@ def gen_cmd(rng, cid, nmax):
 def gen_session(rng, kind):
     """kind: 'c01' (queries/modes/commands), 'c14' (select-1/exit-0), 'c10' (selection actions)"""
     opts = []
-    interactive = kind == "c01" and rng.random() < 0.35
+    # interactive sessions re-run commands: the run number of an item changes, and comes back when a command text comes back
+    interactive = (kind == "c01" and rng.random() < 0.35) or (kind in ("c10", "c05") and rng.random() < 0.25)
     if interactive:
         opts.append("interactive")
     if kind in ("c10", "c05") or rng.random() < 0.3:
@@ -64,6 +65,12 @@ def gen_session(rng, kind):
         opts.append("regex")
     if rng.random() < 0.3:
         opts.append("q=" + enc("".join(rng.choice(ALPHA) for _ in range(rng.randint(1, 2)))))
+    history = kind in ("c01", "c05") and rng.random() < 0.3
+    if history:
+        # recalled entries often have the LENGTH of what is typed (1-2 letters) — only the text tells them apart
+        opts.append("hist=" + "+".join(enc(rng.choice(WORDS[:9])) for _ in range(rng.randint(1, 3))))
+        if interactive:
+            opts.append("chist=" + "+".join(enc(rng.choice(["0", "1", "2", "01", "02"])) for _ in range(rng.randint(1, 3))))
     if kind == "c14":
         opts.append(rng.choice(["select1", "exit0", "select1,exit0"]))
     cmds = []
@@ -90,7 +97,7 @@ def gen_session(rng, kind):
             else:
                 evs.append("add:%d" % ord(rng.choice(ALPHA if not interactive or rng.random() < 0.5 else "012")))
         elif r < 0.68:
-            evs.append("bs")
+            evs.append("bs" if not history or rng.random() < 0.4 else rng.choice(["prevh", "prevh", "nexth"]))
         elif r < 0.74:
             evs.append("rot")
         elif r < 0.80 and interactive:
@@ -223,13 +230,14 @@ def _post(case, impl):
         return None
 
     def snap_tok(l):
-        mm = re.match(r"loop\.end list=(\S*) sel=(\S*) nopt=(\d+) mc=(\w+) clear=(\w+) cur=(\d+) run=(\d+) pool=(\d+)/(\d+) rdone=(\w+) re=(\w+) cq=\"(.*)\" q=\"(.*)\"$", l)
+        mm = re.match(r"loop\.end list=(\S*) sel=(\S*) nopt=(\d+) mc=(\w+) clear=(\w+) cur=(\d+) run=(\d+) pool=(\d+)/(\d+) rdone=(\w+) re=(\w+) dq=(\w*)\. dcmd=(\w*)\. cq=\"(.*)\" q=\"(.*)\"$", l)
         lst = [int(x) for x in mm.group(1).split(",") if x]
         sel = mm.group(2) or "_"
         mc = mm.group(4) == "true"
         clear = {"DontClear": "D", "Clear": "C", "ClearIfNotNull": "N"}[mm.group(5)]
         quiet = (mm.group(10) == "true") and (not mc) and mm.group(8) == mm.group(9)
-        info = dict(list=lst, cur=int(mm.group(6)), run=int(mm.group(7)), q=mm.group(13), cq=mm.group(12), re=mm.group(11) == "true")
+        info = dict(list=lst, cur=int(mm.group(6)), run=int(mm.group(7)), q=mm.group(15), cq=mm.group(14), re=mm.group(11) == "true",
+                    dq=bytes.fromhex(mm.group(12)).decode("utf-8", "replace"), dcmd=bytes.fromhex(mm.group(13)).decode("utf-8", "replace"))
         return "SNAP %s %s %d %s %d" % (",".join(str(x) for x in sorted(lst)) or "_", sel, int(mc), clear, int(quiet)), info
 
     pos = 0
@@ -294,6 +302,10 @@ def _post(case, impl):
             toks.append("EV bdel")
         elif ev == "EvActToggleInteractive":
             toks.append("EV ti")
+        elif ev == "EvActPreviousHistory":
+            toks.append("EV prevh")
+        elif ev == "EvActNextHistory":
+            toks.append("EV nexth")
         # the handler token
         if ev == "EvHeartBeat":
             def rd(pat):
@@ -351,6 +363,9 @@ def _post(case, impl):
             toks.append(snap)
             prev_snap[0] = info
             toks.append("CUR %s" % (info["list"][info["cur"]] if info["cur"] < len(info["list"]) else "x"))
+            # what the query line shows at the end of the iteration: (query, mode) key and command of the DISPLAYED text
+            dkey = "%s/%d" % (enc(info["dq"]), int(info["re"]))
+            toks.append("DQ %d %d" % (qids.get(dkey, 999), cid_of.get(info["dcmd"], 99)))
         pos = e + 1 if end is not None else e
     for l in trace[pos:]:
         t = foreign(l)
@@ -398,6 +413,11 @@ def out_token(out, events, opts):
     for o in opts:
         if o.startswith("q="):
             init_q = o[2:]
-    return "OUT abort=%d ev=%s arg=%s key=%s query=%s cmd=%s items=%s ptr=%s want_arg=%s want_key=%s init_q=%s inter=%d last=%s" % (
+    hist = {"hist": "_", "chist": "_"}
+    for o in opts:
+        for k in hist:
+            if o.startswith(k + "="):
+                hist[k] = o[len(k) + 1:]
+    return "OUT abort=%d ev=%s arg=%s key=%s query=%s cmd=%s items=%s ptr=%s want_arg=%s want_key=%s init_q=%s inter=%d last=%s hist=%s chist=%s" % (
         int(f["abort"] == "true"), kind, arg, f["key"], f["query"], f["cmd"], ",".join(ids) or "_", ptr,
-        want_arg, want_key, init_q, int("interactive" in opts), (last.split(":")[0] or "none"))
+        want_arg, want_key, init_q, int("interactive" in opts), (last.split(":")[0] or "none"), hist["hist"], hist["chist"])
